@@ -11,3 +11,8 @@ import Emitter.Props.C19
 #print axioms Emitter.C19.split_ok
 #print axioms Emitter.C19.flush_ok
 #print axioms Emitter.C19.peer_exactly_once
+#print axioms Emitter.Tie.Id.tie_Contract
+#print axioms Emitter.Tie.Id.tie_Time
+#print axioms Emitter.Tie.Id.tie_SetTime
+#print axioms Emitter.Tie.Id.tie_NewPrefix
+#print axioms Emitter.Tie.Id.tie_HasPrefix
